@@ -54,7 +54,7 @@ def can_accept_worker(st, T, tid, wid):
 def check_trace(res, tr):
     st = Static(tr.model)
     rec = tr.rec
-    started_prev = {tid: False for tid in st.order}  # started by the previous recorded instant
+    started_prev = {tid: st.exempt(tid) for tid in st.order}  # started by the previous recorded instant (FINISHED from the start counts)
     finished_prev = {tid: st.exempt(tid) for tid in st.order}
     prevR = rec.init_snap["T"] if rec.init_snap is not None else None
     nontrivial = False
